@@ -623,7 +623,9 @@ func (g *Gen) verifyCaseX(b *Block, unreachable bool) {
 	// the unit carries the function-level block for requires/ensures, with the case's flags on top
 	merged := &Block{Kind: "func", Target: b.Target, Case: b.Case, Loop: -1, Closure: -1, Flags: map[string]string{}, Props: b.Props, Line: b.Line}
 	for k, v := range fb.Flags {
-		merged.Flags[k] = v
+		if k != "trusted" {
+			merged.Flags[k] = v
+		}
 	}
 	for k, v := range b.Flags {
 		if k != "nopanic" {
@@ -633,6 +635,9 @@ func (g *Gen) verifyCaseX(b *Block, unreachable bool) {
 	// the function-level contract is proved case by case: every case unit checks the function's
 	// ensures / panic clauses on the exits it reaches
 	for _, c := range fb.Clauses {
+		if hasFlag(fb, "trusted") && c.Kind != "requires" {
+			continue // a trusted function-level contract is not proved through its cases
+		}
 		if c.Kind == "requires" || c.Kind == "ensures" || c.Kind == "panics_iff" || c.Kind == "modifies" {
 			cc2 := c
 			if len(cc2.Props) == 0 {
@@ -698,6 +703,9 @@ func (u *Unit) finishCase() {
 		return
 	}
 	pos := u.caseClause.Colon + 1
+	if n := len(u.caseClause.Body); n > 0 {
+		pos = u.caseClause.Body[n-1].End() - 1 // inside the last statement: the case's locals are in scope
+	}
 	if ctx := u.g.C.byID[b.Target+"/context"]; ctx != nil && !hasFlag(b, "noctx") {
 		for i, c := range ctx.clauses("ensures") {
 			var parts []string
